@@ -13,22 +13,22 @@ Proof.
   rewrite !N.succ_pos_spec in E. lia.
 Qed.
 
-Lemma arr_get_add i x a j :
-  arr_get (PositiveMap.add (N.succ_pos i) x a) j = if j =? i then x else arr_get a j.
+Lemma dict_arr_get_add i x a j :
+  dict_arr_get (PositiveMap.add (N.succ_pos i) x a) j = if j =? i then x else dict_arr_get a j.
 Proof.
-  unfold arr_get. destruct (j =? i) eqn:E.
+  unfold dict_arr_get. destruct (j =? i) eqn:E.
   - apply N.eqb_eq in E. subst. rewrite PositiveMap.gss. reflexivity.
   - rewrite PositiveMap.gso; [reflexivity|]. intro H. apply succ_pos_inj in H.
     apply N.eqb_neq in E. congruence.
 Qed.
 
-Lemma arr_fill_get l : forall i a j,
-  arr_get (arr_fill l i a) j
-  = if (i <=? j) && (j <? i + N.of_nat (length l)) then nth (N.to_nat (j - i)) l 0 else arr_get a j.
+Lemma dict_arr_fill_get l : forall i a j,
+  dict_arr_get (dict_arr_fill l i a) j
+  = if (i <=? j) && (j <? i + N.of_nat (length l)) then nth (N.to_nat (j - i)) l 0 else dict_arr_get a j.
 Proof.
   induction l as [|x t IH]; intros i a j.
-  - cbn [arr_fill length]. destruct ((i <=? j) && (j <? i + N.of_nat 0)) eqn:E; [lia|reflexivity].
-  - cbn [arr_fill]. rewrite IH, arr_get_add. cbn [length].
+  - cbn [dict_arr_fill length]. destruct ((i <=? j) && (j <? i + N.of_nat 0)) eqn:E; [lia|reflexivity].
+  - cbn [dict_arr_fill]. rewrite IH, dict_arr_get_add. cbn [length].
     destruct ((i + 1 <=? j) && (j <? i + 1 + N.of_nat (length t))) eqn:E1.
     + replace ((i <=? j) && (j <? i + N.of_nat (S (length t)))) with true by lia.
       replace (N.to_nat (j - i)) with (S (N.to_nat (j - (i + 1)))) by lia. reflexivity.
@@ -38,12 +38,12 @@ Proof.
       * replace ((i <=? j) && (j <? i + N.of_nat (S (length t)))) with false by lia. reflexivity.
 Qed.
 
-Theorem arr_get_of_list l j : arr_get (arr_of_list l) j = nth (N.to_nat j) l 0.
+Theorem dict_arr_get_of_list l j : dict_arr_get (dict_arr_of_list l) j = nth (N.to_nat j) l 0.
 Proof.
-  unfold arr_of_list. rewrite arr_fill_get.
+  unfold dict_arr_of_list. rewrite dict_arr_fill_get.
   destruct ((0 <=? j) && (j <? 0 + N.of_nat (length l))) eqn:E.
   - rewrite N.sub_0_r. reflexivity.
-  - unfold arr_get. rewrite PositiveMap.gempty. symmetry. apply nth_overflow. lia.
+  - unfold dict_arr_get. rewrite PositiveMap.gempty. symmetry. apply nth_overflow. lia.
 Qed.
 
 (* ---------------------------------------------------------------- sorted distinct list *)
@@ -65,15 +65,15 @@ Proof.
   - pose proof (sdist_nth_lt u Hs j i ltac:(lia)). lia.
 Qed.
 
-Lemma uniq_loop_spec l : forall prev, StronglySorted N.le (prev :: l) ->
-  sdist (uniq_loop prev l) /\ Forall (fun y => prev < y) (uniq_loop prev l) /\
-  (forall x, In x (uniq_loop prev l) <-> In x l /\ x <> prev).
+Lemma dict_uniq_loop_spec l : forall prev, StronglySorted N.le (prev :: l) ->
+  sdist (dict_uniq_loop prev l) /\ Forall (fun y => prev < y) (dict_uniq_loop prev l) /\
+  (forall x, In x (dict_uniq_loop prev l) <-> In x l /\ x <> prev).
 Proof.
   induction l as [|x t IH]; intros prev Hs.
   - cbn. split; [constructor|]. split; [constructor|]. intro y. tauto.
   - inversion Hs as [|? ? Hs' Hall]; subst. inversion Hall as [|? ? Hpx Hpt]; subst.
     inversion Hs' as [|? ? Hs'' Hxt]; subst.
-    cbn [uniq_loop]. destruct (x =? prev) eqn:E.
+    cbn [dict_uniq_loop]. destruct (x =? prev) eqn:E.
     + apply N.eqb_eq in E. subst x. destruct (IH prev) as (A & B & C).
       { constructor; assumption. }
       split; [exact A|]. split; [exact B|]. intro y. split.
@@ -92,11 +92,11 @@ Proof.
            apply C. split; assumption.
 Qed.
 
-Lemma uniq_sorted_spec l : StronglySorted N.le l ->
-  sdist (uniq_sorted l) /\ (forall x, In x (uniq_sorted l) <-> In x l).
+Lemma dict_uniq_sorted_spec l : StronglySorted N.le l ->
+  sdist (dict_uniq_sorted l) /\ (forall x, In x (dict_uniq_sorted l) <-> In x l).
 Proof.
   intro Hs. destruct l as [|x t]; [split; [constructor|tauto]|].
-  cbn [uniq_sorted]. destruct (uniq_loop_spec t x Hs) as (A & B & C). split.
+  cbn [dict_uniq_sorted]. destruct (dict_uniq_loop_spec t x Hs) as (A & B & C). split.
   - constructor; assumption.
   - intro y. split.
     + intros [H|H]; [left; exact H|right; apply C in H; tauto].
@@ -104,31 +104,31 @@ Proof.
       destruct (N.eq_dec y x) as [->|Hne]; [left; reflexivity|right; apply C; tauto].
 Qed.
 
-Lemma qsort64_sorted l : StronglySorted N.le (qsort64 l).
+Lemma dict_qsort64_sorted l : StronglySorted N.le (dict_qsort64 l).
 Proof.
-  unfold qsort64.
+  unfold dict_qsort64.
   assert (T : Relations_1.Transitive (fun x y : N => is_true (x <=? y))).
   { intros a b c H1 H2. unfold is_true in *. lia. }
-  pose proof (NSort.StronglySorted_sort l T) as H.
+  pose proof (DictNSort.StronglySorted_sort l T) as H.
   induction H as [|x u Hs IH Hall]; constructor; [exact IH|].
   eapply Forall_impl; [|exact Hall]. cbn. intros y Hy. unfold is_true in Hy. lia.
 Qed.
 
-Lemma qsort64_in l x : In x (qsort64 l) <-> In x l.
+Lemma dict_qsort64_in l x : In x (dict_qsort64 l) <-> In x l.
 Proof.
-  unfold qsort64. pose proof (NSort.Permuted_sort l) as P. split; intro H.
+  unfold dict_qsort64. pose proof (DictNSort.Permuted_sort l) as P. split; intro H.
   - eapply Permutation_in; [apply Permutation_sym; exact P|exact H].
   - eapply Permutation_in; [exact P|exact H].
 Qed.
 
 (* the dictionary: strictly increasing, same elements as the input *)
-Definition dict_values_of (xs : list N) : list N := uniq_sorted (qsort64 xs).
+Definition dict_values_of (xs : list N) : list N := dict_uniq_sorted (dict_qsort64 xs).
 
 Lemma dict_values_of_spec xs :
   sdist (dict_values_of xs) /\ (forall x, In x (dict_values_of xs) <-> In x xs).
 Proof.
-  unfold dict_values_of. destruct (uniq_sorted_spec (qsort64 xs) (qsort64_sorted xs)) as (A & B).
-  split; [exact A|]. intro x. rewrite B. apply qsort64_in.
+  unfold dict_values_of. destruct (dict_uniq_sorted_spec (dict_qsort64 xs) (dict_qsort64_sorted xs)) as (A & B).
+  split; [exact A|]. intro x. rewrite B. apply dict_qsort64_in.
 Qed.
 
 (* the sorted distinct list is unique: any strictly increasing list with the
@@ -157,13 +157,13 @@ Lemma bsearch_found u : sdist u -> forall fuel target left right idx,
   (idx < length u)%nat -> nth idx u 0 = target ->
   (0 <= left <= Z.of_nat idx)%Z -> (Z.of_nat idx <= right < Z.of_nat (length u))%Z ->
   (right - left + 1 < 2 ^ Z.of_nat fuel)%Z ->
-  bsearch_loop fuel (arr_of_list u) target left right = Some (Z.of_nat idx).
+  dict_bsearch_loop fuel (dict_arr_of_list u) target left right = Some (Z.of_nat idx).
 Proof.
   intros Hs. induction fuel as [|f IH]; intros target left right idx Hi Hn Hl Hr Hf.
   - cbn in Hf. lia.
-  - cbn [bsearch_loop]. replace (left <=? right)%Z with true by lia.
+  - cbn [dict_bsearch_loop]. replace (left <=? right)%Z with true by lia.
     rewrite Z.div2_div. set (mid := (left + (right - left) / 2)%Z).
-    rewrite arr_get_of_list.
+    rewrite dict_arr_get_of_list.
     assert (Hmid : (left <= mid <= right)%Z) by (subst mid; lia).
     set (m := N.to_nat (Z.to_N mid)). assert (Hm : Z.of_nat m = mid) by lia.
     rewrite Nat2Z.inj_succ, Z.pow_succ_r in Hf by lia.
@@ -184,100 +184,100 @@ Qed.
 
 Lemma bsearch_result f : forall a target left right,
   (0 <= left)%Z -> (right - left + 1 < 2 ^ Z.of_nat f)%Z ->
-  exists r, bsearch_loop (S f) a target left right = Some r /\
-            (r = (-1)%Z \/ ((left <= r <= right)%Z /\ arr_get a (Z.to_N r) = target)).
+  exists r, dict_bsearch_loop (S f) a target left right = Some r /\
+            (r = (-1)%Z \/ ((left <= r <= right)%Z /\ dict_arr_get a (Z.to_N r) = target)).
 Proof.
   induction f as [|f IH]; intros a target left right Hl Hf.
-  - cbn in Hf. cbn [bsearch_loop]. replace (left <=? right)%Z with false by lia.
+  - cbn in Hf. cbn [dict_bsearch_loop]. replace (left <=? right)%Z with false by lia.
     exists (-1)%Z. split; [reflexivity|left; reflexivity].
-  - remember (S f) as g. cbn [bsearch_loop]. subst g.
+  - remember (S f) as g. cbn [dict_bsearch_loop]. subst g.
     destruct (left <=? right)%Z eqn:E0; [|exists (-1)%Z; split; [reflexivity|left; reflexivity]].
     rewrite Z.div2_div. set (mid := (left + (right - left) / 2)%Z).
     assert (Hmid : (left <= mid <= right)%Z) by (subst mid; lia).
     rewrite Nat2Z.inj_succ, Z.pow_succ_r in Hf by lia.
     set (P := (2 ^ Z.of_nat f)%Z) in *.
-    destruct (arr_get a (Z.to_N mid) =? target) eqn:E1.
+    destruct (dict_arr_get a (Z.to_N mid) =? target) eqn:E1.
     + exists mid. split; [reflexivity|right]. split; [exact Hmid|]. apply N.eqb_eq. exact E1.
-    + destruct (arr_get a (Z.to_N mid) <? target).
+    + destruct (dict_arr_get a (Z.to_N mid) <? target).
       * destruct (IH a target (mid + 1)%Z right) as (r & Hr & Hc); [lia|subst mid; lia|].
         exists r. split; [exact Hr|]. destruct Hc as [Hc|[Hc1 Hc2]]; [left; exact Hc|right; split; [lia|exact Hc2]].
       * destruct (IH a target left (mid - 1)%Z) as (r & Hr & Hc); [lia|subst mid; lia|].
         exists r. split; [exact Hr|]. destruct Hc as [Hc|[Hc1 Hc2]]; [left; exact Hc|right; split; [lia|exact Hc2]].
 Qed.
 
-Fixpoint find_index (u : list N) (v : N) : nat :=
+Fixpoint dict_find_index (u : list N) (v : N) : nat :=
   match u with
   | [] => 0%nat
-  | x :: t => if x =? v then 0%nat else S (find_index t v)
+  | x :: t => if x =? v then 0%nat else S (dict_find_index t v)
   end.
 
-Lemma find_index_spec u v : In v u -> (find_index u v < length u)%nat /\ nth (find_index u v) u 0 = v.
+Lemma dict_find_index_spec u v : In v u -> (dict_find_index u v < length u)%nat /\ nth (dict_find_index u v) u 0 = v.
 Proof.
   induction u as [|x t IH]; intro H; [destruct H|].
-  cbn [find_index]. destruct (x =? v) eqn:E.
+  cbn [dict_find_index]. destruct (x =? v) eqn:E.
   - apply N.eqb_eq in E. subst. cbn. split; [lia|reflexivity].
   - destruct H as [H|H]; [apply N.eqb_neq in E; congruence|].
     destruct (IH H) as (A & B). cbn [length nth]. split; [lia|exact B].
 Qed.
 
-Lemma to_s32_size size : 1 <= size <= 2147483648 ->
-  to_s32 (u32 (size + 4294967296 - 1)) = (Z.of_N size - 1)%Z.
-Proof. intro H. unfold to_s32, u32. destruct (_ <? 2147483648) eqn:E; lia. Qed.
+Lemma dict_to_s32_size size : 1 <= size <= 2147483648 ->
+  dict_to_s32 (u32 (size + 4294967296 - 1)) = (Z.of_N size - 1)%Z.
+Proof. intro H. unfold dict_to_s32, u32. destruct (_ <? 2147483648) eqn:E; lia. Qed.
 
 (* varintDictFind on a dictionary produced by varintDictBuild *)
 Theorem dict_find_found u v : sdist u -> 1 <= N.of_nat (length u) <= 1048576 -> In v u ->
-  dict_find_arr (arr_of_list u) (N.of_nat (length u)) v = Some (Z.of_nat (find_index u v)).
+  dict_find_arr (dict_arr_of_list u) (N.of_nat (length u)) v = Some (Z.of_nat (dict_find_index u v)).
 Proof.
-  intros Hs Hlen Hin. destruct (find_index_spec u v Hin) as (A & B).
+  intros Hs Hlen Hin. destruct (dict_find_index_spec u v Hin) as (A & B).
   unfold dict_find_arr. replace (N.of_nat (length u) =? 0) with false by lia.
-  unfold binary_search. rewrite to_s32_size by lia.
+  unfold dict_binary_search. rewrite dict_to_s32_size by lia.
   apply bsearch_found; try assumption; try lia;
   change (2 ^ Z.of_nat 33)%Z with 8589934592%Z; lia.
 Qed.
 
 Theorem dict_find_absent u v : 1 <= N.of_nat (length u) <= 1048576 -> ~ In v u ->
-  dict_find_arr (arr_of_list u) (N.of_nat (length u)) v = Some (-1)%Z.
+  dict_find_arr (dict_arr_of_list u) (N.of_nat (length u)) v = Some (-1)%Z.
 Proof.
   intros Hlen Hnin.
   unfold dict_find_arr. replace (N.of_nat (length u) =? 0) with false by lia.
-  unfold binary_search. rewrite to_s32_size by lia.
-  destruct (bsearch_result 32 (arr_of_list u) v 0%Z (Z.of_N (N.of_nat (length u)) - 1)%Z) as (r & Hr & Hc).
+  unfold dict_binary_search. rewrite dict_to_s32_size by lia.
+  destruct (bsearch_result 32 (dict_arr_of_list u) v 0%Z (Z.of_N (N.of_nat (length u)) - 1)%Z) as (r & Hr & Hc).
   - lia.
   - change (2 ^ Z.of_nat 32)%Z with 4294967296%Z. lia.
   - rewrite Hr. destruct Hc as [->|[Hc1 Hc2]]; [reflexivity|].
-    exfalso. apply Hnin. rewrite arr_get_of_list in Hc2. rewrite <- Hc2. apply nth_In. lia.
+    exfalso. apply Hnin. rewrite dict_arr_get_of_list in Hc2. rewrite <- Hc2. apply nth_In. lia.
 Qed.
 
 (* ---------------------------------------------------------------- index bytes *)
 Lemma land255 x : N.land x 255 = x mod 256.
 Proof. change 255 with (N.ones 8). rewrite N.land_ones. reflexivity. Qed.
 
-Lemma ext_put_quick_le v w : ext_put_quick v w = le_bytes w v.
+Lemma dict_ext_put_quick_le v w : dict_ext_put_quick v w = le_bytes w v.
 Proof.
   destruct w as [|[|[|[|w]]]]; try reflexivity.
-  - cbn [ext_put_quick le_bytes]. rewrite !land255. unfold shr. reflexivity.
-  - cbn [ext_put_quick le_bytes]. rewrite !land255. unfold shr.
+  - cbn [dict_ext_put_quick le_bytes]. rewrite !land255. unfold shr. reflexivity.
+  - cbn [dict_ext_put_quick le_bytes]. rewrite !land255. unfold shr.
     rewrite N.div_div by lia. reflexivity.
 Qed.
 
-Lemma ext_get_quick_ge4 z w : (4 <= w)%nat -> ext_get_quick z w = of_le (firstn w (z ++ repeat 0 w)).
+Lemma dict_ext_get_quick_ge4 z w : (4 <= w)%nat -> dict_ext_get_quick z w = of_le (firstn w (z ++ repeat 0 w)).
 Proof. intro H. destruct w as [|[|[|[|w]]]]; try lia. reflexivity. Qed.
 
 Lemma firstn_app_len' {A} (a b : list A) k : k = length a -> firstn k (a ++ b) = a.
 Proof. intros ->. apply firstn_app_len. Qed.
 
-Lemma ext_get_quick_le w idx rest : (1 <= w <= 8)%nat -> idx < 256 ^ N.of_nat w ->
-  ext_get_quick (le_bytes w idx ++ rest) w = idx.
+Lemma dict_ext_get_quick_le w idx rest : (1 <= w <= 8)%nat -> idx < 256 ^ N.of_nat w ->
+  dict_ext_get_quick (le_bytes w idx ++ rest) w = idx.
 Proof.
   intros Hw Hi. destruct (Nat.le_gt_cases 4 w) as [H4|H4].
-  - rewrite ext_get_quick_ge4 by exact H4. rewrite <- app_assoc.
+  - rewrite dict_ext_get_quick_ge4 by exact H4. rewrite <- app_assoc.
     rewrite firstn_app_len' by (symmetry; apply length_le_bytes).
     rewrite of_le_le_bytes. apply N.mod_small. exact Hi.
   - destruct w as [|[|[|[|w]]]]; try lia.
-    + change (256 ^ N.of_nat 1) with 256 in Hi. unfold ext_get_quick. cbn [le_bytes app byte_at nth]. lia.
-    + change (256 ^ N.of_nat 2) with 65536 in Hi. unfold ext_get_quick. cbn [le_bytes app byte_at nth].
+    + change (256 ^ N.of_nat 1) with 256 in Hi. unfold dict_ext_get_quick. cbn [le_bytes app byte_at nth]. lia.
+    + change (256 ^ N.of_nat 2) with 65536 in Hi. unfold dict_ext_get_quick. cbn [le_bytes app byte_at nth].
       rewrite shl_lor_small by lia. lia.
-    + change (256 ^ N.of_nat 3) with 16777216 in Hi. unfold ext_get_quick. cbn [le_bytes app byte_at nth].
+    + change (256 ^ N.of_nat 3) with 16777216 in Hi. unfold dict_ext_get_quick. cbn [le_bytes app byte_at nth].
       rewrite be3 by lia. lia.
 Qed.
 
@@ -289,7 +289,7 @@ Proof.
 Qed.
 
 Definition index_bytes (u : list N) (w : nat) (vs : list N) : list N :=
-  flat_map (fun v => le_bytes w (N.of_nat (find_index u v))) vs.
+  flat_map (fun v => le_bytes w (N.of_nat (dict_find_index u v))) vs.
 
 Lemma index_bytes_len u w vs : length (index_bytes u w vs) = (length vs * w)%nat.
 Proof.
@@ -299,13 +299,13 @@ Qed.
 
 Lemma dict_encode_indices_ok u w : sdist u -> 1 <= N.of_nat (length u) <= 1048576 ->
   forall vs, (forall v, In v vs -> In v u) ->
-  dict_encode_indices (arr_of_list u) (N.of_nat (length u)) w vs = (index_bytes u w vs, true).
+  dict_encode_indices (dict_arr_of_list u) (N.of_nat (length u)) w vs = (index_bytes u w vs, true).
 Proof.
   intros Hs Hlen. induction vs as [|v t IH]; intro Hin; [reflexivity|].
   cbn [dict_encode_indices]. rewrite dict_find_found by (try assumption; apply Hin; left; reflexivity).
-  replace (Z.of_nat (find_index u v) <? 0)%Z with false by lia.
+  replace (Z.of_nat (dict_find_index u v) <? 0)%Z with false by lia.
   rewrite IH by (intros; apply Hin; right; assumption). cbn [fst snd].
-  rewrite ext_put_quick_le. replace (Z.to_N (Z.of_nat (find_index u v))) with (N.of_nat (find_index u v)) by lia.
+  rewrite dict_ext_put_quick_le. replace (Z.to_N (Z.of_nat (dict_find_index u v))) with (N.of_nat (dict_find_index u v)) by lia.
   reflexivity.
 Qed.
 
@@ -316,7 +316,7 @@ Lemma dict_encode_indices_len a size w vs :
 Proof.
   induction vs as [|v t IH]; [cbn; lia|].
   cbn [dict_encode_indices]. destruct (dict_find_arr a size v) as [idx|]; [|cbn; lia].
-  destruct (idx <? 0)%Z; [cbn; lia|]. cbn [fst]. rewrite app_length, ext_put_quick_le, length_le_bytes.
+  destruct (idx <? 0)%Z; [cbn; lia|]. cbn [fst]. rewrite app_length, dict_ext_put_quick_le, length_le_bytes.
   cbn [length]. lia.
 Qed.
 
@@ -349,7 +349,7 @@ Proof.
     cbn [dict_read_entries]. cbn [length] in Hsum, Hf. subst dictSize. replace (i <? i + N.of_nat (S (length t))) with true by lia.
     unfold entry_bytes in *. cbn [flat_map] in *. rewrite app_length, tagged_put_len_nat in Hav.
     rewrite <- app_assoc.
-    rewrite tagged_roundtrip by (try exact Hx; apply tagged_avail_ge; lia).
+    rewrite tagged_roundtrip by (try exact Hx; apply rle_tagged_avail_ge; lia).
     cbn [fst snd]. pose proof (tagged_len_ge1 x). replace (tagged_len x =? 0) with false by lia.
     rewrite skipn_put. rewrite (IH f rest (avail - tagged_len x) (i + 1) (i + N.of_nat (S (length t))))
       by (assumption || lia).
@@ -368,7 +368,7 @@ Lemma dict_read_header_ok u count rest n :
   all_u64 u -> N.of_nat (length u) <= 1048576 -> u64_ok count ->
   N.of_nat (length (header_bytes u count)) <= n ->
   dict_read_header (header_bytes u count ++ rest) n
-  = HOk u (N.of_nat (length u)) count (n - N.of_nat (length (header_bytes u count)))
+  = DictHOk u (N.of_nat (length u)) count (n - N.of_nat (length (header_bytes u count)))
         [8 * N.of_nat (length u)].
 Proof.
   intros Hu Hlen Hc Hn. rewrite header_bytes_len in *.
@@ -376,7 +376,7 @@ Proof.
   pose proof (entry_bytes_len_ge u) as Hge.
   unfold dict_read_header, header_bytes. replace (n =? 0) with false by lia.
   rewrite <- !app_assoc.
-  rewrite tagged_roundtrip by (try (unfold u64_ok; lia); apply tagged_avail_ge; lia).
+  rewrite tagged_roundtrip by (try (unfold u64_ok; lia); apply rle_tagged_avail_ge; lia).
   cbn [fst snd]. replace (tagged_len (N.of_nat (length u)) =? 0) with false by lia.
   unfold dict_max_size. replace (1048576 <? N.of_nat (length u)) with false by lia.
   rewrite skipn_put.
@@ -385,7 +385,7 @@ Proof.
   set (a1 := n - tagged_len (N.of_nat (length u))).
   replace (N.to_nat (a1 - (a1 - N.of_nat (length (entry_bytes u))))) with (length (entry_bytes u)) by lia.
   rewrite skipn_app_len.
-  rewrite tagged_roundtrip by (try exact Hc; apply tagged_avail_ge; lia).
+  rewrite tagged_roundtrip by (try exact Hc; apply rle_tagged_avail_ge; lia).
   cbn [fst snd]. replace (tagged_len count =? 0) with false by lia.
   f_equal; [lia|]. f_equal. unfold mul64. lia.
 Qed.
@@ -394,7 +394,7 @@ Qed.
 Lemma dict_decode_indices_ok u w : (1 <= w <= 8)%nat -> N.of_nat (length u) <= 256 ^ N.of_nat w ->
   forall vs fuel rest i count, (forall v, In v vs -> In v u) ->
   i + N.of_nat (length vs) = count -> (length vs < fuel)%nat ->
-  dict_decode_indices fuel (arr_of_list u) (N.of_nat (length u)) w (index_bytes u w vs ++ rest) i count
+  dict_decode_indices fuel (dict_arr_of_list u) (N.of_nat (length u)) w (index_bytes u w vs ++ rest) i count
   = Some (vs, true).
 Proof.
   intros Hw Hlen. induction vs as [|v t IH]; intros fuel rest i count Hin Hsum Hf.
@@ -402,19 +402,19 @@ Proof.
     replace (i <? count) with false by lia. reflexivity.
   - destruct fuel as [|f]; [cbn in Hf; lia|]. cbn [dict_decode_indices]. cbn [length] in Hsum, Hf.
     replace (i <? count) with true by lia.
-    destruct (find_index_spec u v (Hin v (or_introl eq_refl))) as (A & B).
+    destruct (dict_find_index_spec u v (Hin v (or_introl eq_refl))) as (A & B).
     unfold index_bytes. cbn [flat_map]. rewrite <- app_assoc.
-    rewrite ext_get_quick_le by (try exact Hw; lia).
-    replace (N.of_nat (length u) <=? N.of_nat (find_index u v)) with false by lia.
+    rewrite dict_ext_get_quick_le by (try exact Hw; lia).
+    replace (N.of_nat (length u) <=? N.of_nat (dict_find_index u v)) with false by lia.
     rewrite skipn_app_len' by (symmetry; apply length_le_bytes).
     fold (index_bytes u w t).
     rewrite (IH f rest (i + 1) count) by (try lia; intros; apply Hin; right; assumption).
-    rewrite arr_get_of_list. replace (N.to_nat (N.of_nat (find_index u v))) with (find_index u v) by lia.
+    rewrite dict_arr_get_of_list. replace (N.to_nat (N.of_nat (dict_find_index u v))) with (dict_find_index u v) by lia.
     rewrite B. reflexivity.
 Qed.
 
 (* ---------------------------------------------------------------- build / encode *)
-Lemma dict_build_ok xs d : dict_build xs = BuildOk d ->
+Lemma dict_build_ok xs d : dict_build xs = DictBuildOk d ->
   xs <> [] /\
   d = mk_dict (dict_values_of xs) (N.of_nat (length (dict_values_of xs)))
               (dict_index_width (N.of_nat (length (dict_values_of xs)))) /\
@@ -451,7 +451,7 @@ Definition dict_bytes_with (u xs : list N) : list N :=
 
 Definition dict_bytes (xs : list N) : list N := dict_bytes_with (dict_values_of xs) xs.
 
-Lemma dict_build_is_dict_of xs d : dict_build xs = BuildOk d -> d = dict_of (dict_values_of xs).
+Lemma dict_build_is_dict_of xs d : dict_build xs = DictBuildOk d -> d = dict_of (dict_values_of xs).
 Proof. intro H. apply dict_build_ok in H. tauto. Qed.
 
 Lemma dict_values_u64 xs : all_u64 xs -> all_u64 (dict_values_of xs).
@@ -479,7 +479,7 @@ Section WithDict.
     dict_encode_with_dict (dict_of u) xs = (dict_bytes_with u xs, true).
   Proof.
     unfold dict_encode_with_dict, dict_of. destruct xs as [|x t]; [congruence|].
-    cbn [d_size d_values d_index_width]. unfold dict_max_size.
+    cbn [dct_size dct_values dct_index_width]. unfold dict_max_size.
     replace (1048576 <? N.of_nat (length u)) with false by lia.
     rewrite dict_encode_indices_ok by assumption.
     cbn [fst snd]. unfold dict_bytes_with, header_bytes, entry_bytes. rewrite <- !app_assoc. reflexivity.
@@ -497,7 +497,7 @@ Section WithDict.
 
   Lemma rt_header tl :
     dict_read_header (dict_bytes_with u xs ++ tl) n
-    = HOk u (N.of_nat (length u)) count (count * N.of_nat w) [8 * N.of_nat (length u)].
+    = DictHOk u (N.of_nat (length u)) count (count * N.of_nat w) [8 * N.of_nat (length u)].
   Proof.
     destruct rt_facts as (Hw & Hlt & Hn & Hc).
     unfold dict_bytes_with. fold w count. rewrite <- app_assoc.
@@ -513,7 +513,7 @@ Section WithDict.
   Qed.
 
   Lemma rt_indices tl fuel : (length xs < fuel)%nat ->
-    dict_decode_indices fuel (arr_of_list u) (N.of_nat (length u)) w (index_bytes u w xs ++ tl) 0 count
+    dict_decode_indices fuel (dict_arr_of_list u) (N.of_nat (length u)) w (index_bytes u w xs ++ tl) 0 count
     = Some (xs, true).
   Proof.
     destruct rt_facts as (Hw & Hlt & Hn & Hc). intro Hf.
@@ -521,7 +521,7 @@ Section WithDict.
   Qed.
 
   Theorem dict_with_decode_roundtrip tl :
-    dict_decode (dict_bytes_with u xs ++ tl) n = DOk xs [8 * N.of_nat (length u); mul64 count 8].
+    dict_decode (dict_bytes_with u xs ++ tl) n = DictOk xs [8 * N.of_nat (length u); mul64 count 8].
   Proof.
     destruct rt_facts as (Hw & Hlt & Hn & Hc).
     unfold dict_decode. rewrite rt_header. fold w.
@@ -531,8 +531,8 @@ Section WithDict.
 
   Theorem dict_with_decode_into_roundtrip tl cap :
     dict_decode_into (dict_bytes_with u xs ++ tl) n cap
-    = if cap <? count then (if cap =? 0 then DNull [] else DNull [8 * N.of_nat (length u)])
-      else DOk xs [8 * N.of_nat (length u)].
+    = if cap <? count then (if cap =? 0 then DictNull [] else DictNull [8 * N.of_nat (length u)])
+      else DictOk xs [8 * N.of_nat (length u)].
   Proof.
     destruct rt_facts as (Hw & Hlt & Hn & Hc).
     unfold dict_decode_into. destruct (cap =? 0) eqn:E0.
@@ -547,7 +547,7 @@ Section WithDict.
   Proof.
     intro Hmem. fold count in Hmem. destruct rt_facts as (Hw & Hlt & Hn & Hc).
     unfold dict_encoded_size_with_dict, dict_of.
-    cbn [d_size d_values d_index_width]. fold w.
+    cbn [dct_size dct_values dct_index_width]. fold w.
     replace (count =? 0) with false by lia.
     rewrite entry_bytes_fold. rewrite Hn, header_bytes_len.
     unfold mul64. unfold u64_ok in Hcnt. fold count in Hcnt. rewrite N.mod_small by nia. lia.
@@ -558,7 +558,7 @@ End WithDict.
 Section RoundTrip.
   Variable xs : list N.
   Variable d : dict.
-  Hypothesis Hb : dict_build xs = BuildOk d.
+  Hypothesis Hb : dict_build xs = DictBuildOk d.
   Hypothesis Hxs : all_u64 xs.
   Hypothesis Hcnt : u64_ok (N.of_nat (length xs)).
 
@@ -586,7 +586,7 @@ Section RoundTrip.
      them in memory) returns the original array *)
   Theorem dict_decode_roundtrip tl :
     dict_decode (fst (dict_encode xs) ++ tl) (N.of_nat (length (fst (dict_encode xs))))
-    = DOk xs [8 * N.of_nat (length u); mul64 (N.of_nat (length xs)) 8].
+    = DictOk xs [8 * N.of_nat (length u); mul64 (N.of_nat (length xs)) 8].
   Proof.
     destruct build_facts as (Hs & Hlen & Hu & Hne & Hin & Hd).
     rewrite dict_encode_is_spec. cbn [fst]. apply dict_with_decode_roundtrip; assumption.
@@ -596,8 +596,8 @@ Section RoundTrip.
   Theorem dict_decode_into_roundtrip tl cap :
     dict_decode_into (fst (dict_encode xs) ++ tl) (N.of_nat (length (fst (dict_encode xs)))) cap
     = if cap <? N.of_nat (length xs)
-      then (if cap =? 0 then DNull [] else DNull [8 * N.of_nat (length u)])
-      else DOk xs [8 * N.of_nat (length u)].
+      then (if cap =? 0 then DictNull [] else DictNull [8 * N.of_nat (length u)])
+      else DictOk xs [8 * N.of_nat (length u)].
   Proof.
     destruct build_facts as (Hs & Hlen & Hu & Hne & Hin & Hd).
     rewrite dict_encode_is_spec. cbn [fst]. apply dict_with_decode_into_roundtrip; assumption.
@@ -620,7 +620,7 @@ End RoundTrip.
 (* a value missing from the dictionary: "return 0" after writing a prefix that
    stays inside the predicted size, for ANY dictionary structure *)
 Theorem dict_with_bound d xs : N.of_nat (length xs) * 8 < 18446744073709551616 ->
-  (d_index_width d <= 8)%nat ->
+  (dct_index_width d <= 8)%nat ->
   N.of_nat (length (fst (dict_encode_with_dict d xs)))
   <= dict_encoded_size_with_dict d (N.of_nat (length xs)) /\
   dict_ret (dict_encode_with_dict d xs) <= dict_encoded_size_with_dict d (N.of_nat (length xs)).
@@ -630,19 +630,19 @@ Proof.
               <= dict_encoded_size_with_dict d (N.of_nat (length xs))).
   { unfold dict_encode_with_dict, dict_encoded_size_with_dict. destruct xs as [|x t]; [cbn; lia|].
     replace (N.of_nat (length (x :: t)) =? 0) with false by (cbn [length]; lia).
-    destruct (dict_max_size <? d_size d); [cbn [fst length]; lia|].
+    destruct (dict_max_size <? dct_size d); [cbn [fst length]; lia|].
     cbn [fst]. rewrite !app_length, !tagged_put_len_nat, entry_bytes_fold.
-    fold (entry_bytes (d_values d)).
-    pose proof (dict_encode_indices_len (arr_of_list (d_values d)) (d_size d) (d_index_width d) (x :: t)).
+    fold (entry_bytes (dct_values d)).
+    pose proof (dict_encode_indices_len (dict_arr_of_list (dct_values d)) (dct_size d) (dct_index_width d) (x :: t)).
     unfold mul64. rewrite N.mod_small by nia. nia. }
   split; [exact A|]. unfold dict_ret. destruct (snd (dict_encode_with_dict d xs)); lia.
 Qed.
 
 Theorem dict_decode_into_full xs d :
-  dict_build xs = BuildOk d -> all_u64 xs -> u64_ok (N.of_nat (length xs)) ->
+  dict_build xs = DictBuildOk d -> all_u64 xs -> u64_ok (N.of_nat (length xs)) ->
   forall tl cap, N.of_nat (length xs) <= cap ->
   dict_decode_into (fst (dict_encode xs) ++ tl) (N.of_nat (length (fst (dict_encode xs)))) cap
-  = DOk xs [8 * N.of_nat (length (dict_values_of xs))].
+  = DictOk xs [8 * N.of_nat (length (dict_values_of xs))].
 Proof.
   intros Hb Hx Hc tl cap Hcap. rewrite (dict_decode_into_roundtrip xs d Hb Hx Hc).
   replace (cap <? N.of_nat (length xs)) with false by lia. reflexivity.
